@@ -375,4 +375,121 @@ class CompileScn:
                 "vector": "".join("A" if r.get("ok") else ("P" if r.get("panic") else "R") for r in c.get("results") or [])}
 
 
-SCN = {"orch": Orch, "kc": KCScn, "eval": EvalScn, "compile": CompileScn}
+class PoolScn:
+    """aspects: op (outcome of a management operation), query, exec (what the instances run),
+    crash, capacity, iso (request isolation), leak (data visible after the call), mutated
+    (returned result map changed later), atomic / visible (C07)."""
+
+    NAMES = ["a", "b", "c", "d", "e", "f"]
+
+    @staticmethod
+    def exec_issues(add, ex, want, side, kind, check_rules=True):
+        """want: list of {name, ver}"""
+        res = ex.get("results") or {}
+        got = sorted((n, v // 1000) for n, v in res.items())
+        for n, v in res.items():
+            if v % 1000 != ex.get("id"):
+                add("iso", "impl-vs-spec", "request %s got result %s=%s computed from request %s" % (ex.get("id"), n, v, v % 1000))
+        if ex.get("panic"):
+            add("crash", "impl-vs-spec", "request %s panicked: %s" % (ex.get("id"), ex.get("panic")))
+            return
+        if check_rules and got != sorted((r["name"], r["ver"]) for r in want):
+            add("exec", kind, "request %s ran (rule, version) %s, %s says %s | err %s"
+                % (ex.get("id"), got, side, sorted((r["name"], r["ver"]) for r in want), (ex.get("err") or "")[:100]))
+
+    @staticmethod
+    def compare(c, o):
+        issues = []
+        mode = c.get("mode")
+        def add(aspect, kind, detail):
+            issues.append({"aspect": aspect, "kind": kind, "method": mode, "detail": detail})
+        if c.get("buildErr"):
+            add("build", "impl-vs-model", "pool construction failed: %s" % c["buildErr"])
+            return issues
+        if mode == "mgmt":
+            outs = (o or {}).get("ops") or []
+            for k, op in enumerate(c.get("ops") or []):
+                if k >= len(outs):
+                    add("driver", "impl-vs-model", "no model output for op %d" % k)
+                    break
+                desc = "op %d %s%s" % (k, op["op"], " (rejected text)" if op.get("bad") else "")
+                impl = "panic" if op.get("panic") else ("ok" if op.get("ok") else "err")
+                for side, kind in (("model", "impl-vs-model"), ("spec", "impl-vs-spec")):
+                    e = outs[k][side]
+                    if impl == "panic":
+                        if e["out"] != "panic":
+                            add("crash", kind, "%s panicked (%s), %s says %s | history %s" % (desc, op.get("panic"), side, e["out"], [x["op"] for x in c["ops"][:k + 1]]))
+                        continue
+                    if impl != e["out"]:
+                        add("op", kind, "%s returned %s (%s), %s says %s" % (desc, impl, op.get("err", ""), side, e["out"]))
+                        continue
+                    q = op.get("queries") or {}
+                    want = {r["name"]: r for r in e["rules"]}
+                    got_names = sorted(n for n, v in (q.get("exist") or {}).items() if v)
+                    if got_names != sorted(want):
+                        add("query", kind, "after %s IsExist says %s, %s says %s" % (desc, got_names, side, sorted(want)))
+                    if q.get("number") != e["number"]:
+                        add("query", kind, "after %s GetRulesNumber=%s, %s says %s" % (desc, q.get("number"), side, e["number"]))
+                    if (q.get("sal") or {}) != {n: r["sal"] for n, r in want.items()}:
+                        add("query", kind, "after %s saliences %s, %s says %s" % (desc, q.get("sal"), side, {n: r["sal"] for n, r in want.items()}))
+                    if (q.get("desc") or {}) != {n: "v%d" % r["ver"] for n, r in want.items()}:
+                        add("query", kind, "after %s descriptions %s, %s says %s" % (desc, q.get("desc"), side, {n: "v%d" % r["ver"] for n, r in want.items()}))
+                    if q.get("model") != e["execModel"]:
+                        add("query", kind, "after %s GetExecModel=%s, %s says %s" % (desc, q.get("model"), side, e["execModel"]))
+                    for ex in op.get("execs") or []:
+                        PoolScn.exec_issues(lambda a, kd, d: add(a, kd, "after %s: %s" % (desc, d)), ex, e["rules"], side, kind)
+                if impl == "panic":
+                    break
+            return issues
+        exp = o or {}
+        rules = exp.get("rules") or []
+        if mode == "cap":
+            if c.get("peak", 0) > c.get("max"):
+                add("capacity", "impl-vs-spec", "%s requests were inside their rules simultaneously on a pool of %s instances" % (c.get("peak"), c.get("max")))
+            if c.get("peak") != exp.get("peak"):
+                add("capacity", "impl-vs-spec" if c.get("peak", 0) > exp.get("peak", 0) else "impl-vs-model",
+                    "%s clients on %s instances: %s ran simultaneously, expected %s" % (c.get("clients"), c.get("max"), c.get("peak"), exp.get("peak")))
+            if c.get("done") != exp.get("done"):
+                add("capacity", "impl-vs-spec", "%s of %s requests completed after the gate was opened (waiters must proceed)" % (c.get("done"), c.get("clients")))
+            if c.get("peak2") != exp.get("peak2"):
+                add("capacity", "impl-vs-spec", "after %s requests (some failing) only %s of %s instances could be used simultaneously" % (c.get("clients"), c.get("peak2"), c.get("max")))
+            for ex in c.get("execs") or []:
+                failing = ex.get("id", 0) % 3 == 0
+                PoolScn.exec_issues(add, ex, [] if failing else rules, "spec", "impl-vs-spec", check_rules=not failing or c.get("model") == 1)
+                if failing and not ex.get("err"):
+                    add("exec", "impl-vs-spec", "request %s: a rule panicking in an injected function reported no error" % ex.get("id"))
+        if mode == "iso":
+            for ex in c.get("execs") or []:
+                PoolScn.exec_issues(add, ex, rules, "spec", "impl-vs-spec")
+                if ex.get("out") != ex.get("id") or ex.get("echo") != ex.get("id"):
+                    add("iso", "impl-vs-spec", "request %s: its own object holds out=%s echo=%s" % (ex.get("id"), ex.get("out"), ex.get("echo")))
+            pr = c.get("probe") or {}
+            if pr.get("results") or not pr.get("err"):
+                add("leak", "impl-vs-spec", "a request that injected nothing ran rules reading q: results %s err %r" % (pr.get("results"), pr.get("err")))
+            if c.get("mutated"):
+                add("mutated", "impl-vs-spec", "a result map handed back to a caller changed after later requests")
+        return issues
+
+    @staticmethod
+    def classify(c):
+        key = json.dumps({k: c.get(k) for k in ("mode", "min", "max", "model", "init", "clients")}, sort_keys=True) + \
+            json.dumps([(op.get("op"), op.get("rules"), op.get("names"), op.get("model"), op.get("bad")) for op in c.get("ops") or []])
+        return key, bool(c.get("ops")) or bool(c.get("execs"))
+
+    @staticmethod
+    def histo(c):
+        yield "mode:%s" % c.get("mode")
+        yield "pool:%s-%s" % (c.get("min"), c.get("max"))
+        yield "execModel:%s" % c.get("model")
+        for op in c.get("ops") or []:
+            yield "op:%s%s:%s" % (op.get("op"), "-bad" if op.get("bad") else "", "panic" if op.get("panic") else ("ok" if op.get("ok") else "err"))
+        if c.get("clients"):
+            yield "clients:%s" % c.get("clients")
+
+    @staticmethod
+    def sample(c, o):
+        return {"mode": c.get("mode"), "pool": [c.get("min"), c.get("max")], "model": c.get("model"),
+                "ops": [op.get("op") for op in c.get("ops") or []], "clients": c.get("clients"), "peak": c.get("peak")}
+
+
+SCN = {"orch": Orch, "kc": KCScn, "eval": EvalScn, "compile": CompileScn, "pool": PoolScn}
